@@ -131,7 +131,7 @@ class KaniUnit:
         first = res.failed[0]
         key = "kani:%s:%s:%s:%s" % (self.crate, h, first.func or first.cid, first.desc)
         what = "%s: %s at %s" % (h, first.desc, first.loc)
-        vals, pout = K.playback_values(self.crate, h, harness_timeout=timeout)
+        vals, pout = K.playback_values(self.crate, res.name, harness_timeout=timeout, want_desc=first.desc)
         detail = {
             "harness": h,
             "failed_checks": [c.short() for c in res.failed[:8]],
@@ -140,12 +140,13 @@ class KaniUnit:
         if vals is None:
             r.inconclusive.append("harness %s failed (%s) but Kani printed no concrete playback" % (h, first.desc))
             return
-        rep = native_replay(self.crate, h, vals)
+        rep = native_replay(self.crate, res.name, vals)
         detail["replay"] = rep
         path = os.path.join(REPLAYS, prop, "%s.json" % h)
         os.makedirs(os.path.dirname(path), exist_ok=True)
         with open(path, "w") as f:
             json.dump({"property": prop, "engine": "kani", "crate": self.crate, "harness": h,
+                       "harness_path": res.name,
                        "concrete_vals": vals, "failed_checks": detail["failed_checks"],
                        "native_replay": rep,
                        "rerun": "./check %s --replay %s" % (prop, path)}, f, indent=1)
@@ -171,15 +172,13 @@ def native_replay(crate, harness, vals):
     env["RUST_BACKTRACE"] = "0"
     out = {}
     for prof, flag in (("dev", []), ("release", ["--release"])):
+        # exact, fully qualified test name: a substring filter could run other
+        # harnesses with the same values
         rc, o, secs = run(["cargo", "test", "--lib"] + flag + [harness, "--", "--exact", "--test-threads", "1", "--nocapture"],
                           cwd=crate_dir, env=env, timeout=3600)
-        if rc != 0 and "test result: FAILED" not in o and "panicked" not in o:
-            # maybe the filter needs the module path
-            pass
-        # --exact needs the full path; retry with substring filter if nothing ran
-        if "running 0 tests" in o or "0 passed; 0 failed" in o:
-            rc, o, secs = run(["cargo", "test", "--lib"] + flag + [harness, "--", "--test-threads", "1", "--nocapture"],
-                              cwd=crate_dir, env=env, timeout=3600)
+        if "running 1 test" not in o:
+            out[prof] = {"reproduced": False, "assumption_violated": False, "panic": "", "error": "test %s not found" % harness}
+            continue
         reproduced = rc != 0 and ("panicked" in o)
         assumption = "VERIF-REPLAY: assumption violated" in o
         msg = ""
@@ -188,6 +187,29 @@ def native_replay(crate, harness, vals):
             msg = (m.group(1) + " " + m.group(2)).strip()
         out[prof] = {"reproduced": reproduced, "assumption_violated": assumption, "panic": msg[:300]}
     return out
+
+
+class ArmsKaniUnit(KaniUnit):
+    """Kani harnesses over the verbatim interpreter arms; the harness source
+    is regenerated from /repo's vm/mod.rs before every run."""
+
+    def __init__(self, prefix, functions, bounds, assumptions=None, stubs=None, **kw):
+        KaniUnit.__init__(self, "vmarms", prefix, functions, bounds, assumptions, stubs, **kw)
+        self.name = "kani:vmarms:%s" % prefix
+        self._problems = None
+
+    def expected(self, tier):
+        import armgen
+
+        names, problems = armgen.generate()
+        self._problems = problems
+        return [n for n in names if n.startswith(self.prefix + "q_") or (tier == "thorough" and n.startswith(self.prefix + "t_"))]
+
+    def run(self, prop, tier, only=None):
+        r = KaniUnit.run(self, prop, tier, only)
+        for p in self._problems or []:
+            r.inconclusive.append("arm extraction: " + p)
+        return r
 
 
 # --------------------------------------------------------------------------
@@ -282,7 +304,7 @@ def do_replay(prop, path):
     with open(path) as f:
         rp = json.load(f)
     if rp.get("engine") == "kani":
-        rep = native_replay(rp["crate"], rp["harness"], rp["concrete_vals"])
+        rep = native_replay(rp["crate"], rp.get("harness_path", rp["harness"]), rp["concrete_vals"])
         print(json.dumps(rep, indent=1))
         if rep["dev"]["reproduced"] or rep["release"]["reproduced"]:
             print("VIOLATION property=%s replay=%s" % (prop, path))
